@@ -455,18 +455,38 @@ Definition rt_list_contains (l x : value) : res bool :=
 Definition rt_list_last (l : value) : res value :=
   match l with VList vs => rt_list_get l (Z.of_nat (length vs) - 1) | _ => Err end.
 
+(* ---- __KEY: the text under which dicts and sets keep an entry (since /repo aaf31ad) ---- *)
+
+Fixpoint sconcat (l : list string) : string :=
+  match l with [] => "" | x :: l' => x ++ sconcat l' end.
+
+(* function __KEY(k), with the text of a float as a parameter (`fkey`) so that the laws can say what they
+   need from it *)
+Fixpoint rt_key_with (fkey : Q -> string) (k : value) : string :=
+  match k with
+  | VStr s => "s" ++ z_to_dec (Z.of_nat (String.length s)) ++ ":" ++ s            (* "s" .. #k .. ":" .. k *)
+  | VInt z => "i" ++ z_to_dec z ++ ";"                                             (* "i" .. string.format("%d", k) .. ";" *)
+  | VFloat q => "n" ++ fkey q ++ ";"                                               (* "n" .. string.format("%.17g", k) .. ";" *)
+  | VTuple vs => "(" ++ sconcat (map (fun x => rt_key_with fkey x) vs) ++ ")"      (* "(" .. __KEY(k[1]) .. ... .. ")" *)
+  | _ => "o" ++ rt_tostring k                                                      (* "o" .. tostring(k) *)
+  end.
+
+(* string.format("%.17g", q) *)
+Definition fmt_g17 (q : Q) : string := fmt_g 17 q.
+Definition rt_key (k : value) : string := rt_key_with fmt_g17 k.
+
 (* ---- dicts (preamble.lua dict_*, std/dict.sy) ---- *)
 
 Definition rt_dict_new : value := VDict [].
-(* dict[tostring(k)] = __TUPLE {k, v} *)
+(* dict[__KEY(k)] = __TUPLE {k, v} *)
 Definition rt_dict_update (d k v : value) : res value :=
-  match d with VDict es => Ok (VDict (tbl_set (rt_tostring k) (k, v) es)) | _ => Err end.
-(* dict[tostring(k)] = nil   (tostring since /repo 6c29222) *)
+  match d with VDict es => Ok (VDict (tbl_set (rt_key k) (k, v) es)) | _ => Err end.
+(* dict[__KEY(k)] = nil *)
 Definition rt_dict_remove (d k : value) : res value :=
-  match d with VDict es => Ok (VDict (tbl_del (rt_tostring k) es)) | _ => Err end.
+  match d with VDict es => Ok (VDict (tbl_del (rt_key k) es)) | _ => Err end.
 Definition rt_dict_get (d k : value) : res value :=
   match d with
-  | VDict es => Ok (match tbl_get (rt_tostring k) es with Some (_, v) => mk_just v | None => lib_none end)
+  | VDict es => Ok (match tbl_get (rt_key k) es with Some (_, v) => mk_just v | None => lib_none end)
   | _ => Err
   end.
 (* for _, e in pairs(l) do dict_update(out, e[1], e[2]) end *)
@@ -486,11 +506,11 @@ Definition rt_dict_contains_key (d k : value) : res bool := rbind (rt_dict_get d
 
 Definition rt_set_new : value := VSet [].
 Definition rt_set_add (s k : value) : res value :=
-  match s with VSet es => Ok (VSet (tbl_set (rt_tostring k) k es)) | _ => Err end.
+  match s with VSet es => Ok (VSet (tbl_set (rt_key k) k es)) | _ => Err end.
 Definition rt_set_remove (s k : value) : res value :=
-  match s with VSet es => Ok (VSet (tbl_del (rt_tostring k) es)) | _ => Err end.
+  match s with VSet es => Ok (VSet (tbl_del (rt_key k) es)) | _ => Err end.
 Definition rt_set_contains (s k : value) : res bool :=
-  match s with VSet es => Ok (tbl_mem (rt_tostring k) es) | _ => Err end.
+  match s with VSet es => Ok (tbl_mem (rt_key k) es) | _ => Err end.
 Definition rt_set_from_list (l : value) : res value :=
   match l with
   | VList vs => fold_left (fun acc e => rbind acc (fun s => rt_set_add s e)) vs (Ok rt_set_new)
